@@ -170,8 +170,7 @@ Drop(s, k) == SubSeq(s, k + 1, Len(s))
 
 NotNumeric == [k |-> "nan"]
 
-\* Returns a number or NotNumeric.  Exponents beyond +-9 are outside the
-\* pools used here and rejected as NotNumeric-by-bound (never generated).
+\* Returns a number or NotNumeric.  Exponents beyond +-9 stay symbolic (field e).
 ParseNumber(s0) ==
   LET s1 == Strip(s0)
       neg == s1 # <<>> /\ Head(s1) = 45
@@ -188,14 +187,16 @@ ParseNumber(s0) ==
       ed == IF hasE THEN TakeDigits(s6) ELSE <<>>
       s7 == IF hasE THEN Drop(s6, Len(ed)) ELSE s4
       okMant == ip # <<>> \/ fp # <<>>
-      okExp == ~hasE \/ (ed # <<>> /\ Len(ed) <= 1)
+      okExp == ~hasE \/ (ed # <<>> /\ Len(ed) <= 3)
       mant == DigitsVal(ip \o fp, 0)
-      ex == (IF eneg THEN -1 ELSE 1) * DigitsVal(ed, 0) - Len(fp)
+      ev == (IF eneg THEN -1 ELSE 1) * DigitsVal(ed, 0)
+      ex == ev - Len(fp)
       sg == IF neg THEN -1 ELSE 1
   IN IF ~(okMant /\ okExp /\ s7 = <<>>) THEN NotNumeric
+     ELSE IF Abs(ev) > 3 \/ (ev # 0 /\ mant > 99999) THEN
+          NumE(sg * mant, Pow10(Len(fp)), ev)                     \* symbolic magnitude
      ELSE IF ex >= 0 THEN Num(sg * mant * Pow10(ex), 1)
      ELSE Num(sg * mant, Pow10(-ex))
-
 
 \* ---- does an observed value lie in an expected class? ---------------------
 \* Observations are scalars, or [k |-> "x", sign] for a finite number that is
